@@ -340,3 +340,29 @@ func (d *Doc) Elements() []*Node {
 	}
 	return out
 }
+
+// Clone deep-copies the tree structure (IDs preserved for non-namespace nodes;
+// namespace nodes are re-derived by Finish).
+func (d *Doc) Clone() *Doc {
+	nd := &Doc{next: d.next}
+	var cp func(n, parent *Node) *Node
+	cp = func(n, parent *Node) *Node {
+		c := *n
+		c.Parent = parent
+		c.Children, c.Attrs, c.NSNodes = nil, nil, nil
+		c.Decls = append([]Decl(nil), n.Decls...)
+		out := &c
+		for _, a := range n.Attrs {
+			ac := *a
+			ac.Parent = out
+			out.Attrs = append(out.Attrs, &ac)
+		}
+		for _, ch := range n.Children {
+			out.Children = append(out.Children, cp(ch, out))
+		}
+		return out
+	}
+	nd.Root = cp(d.Root, nil)
+	nd.Finish()
+	return nd
+}
